@@ -509,7 +509,19 @@ def _read_request(
         request_shm = owned_shm = attach_shm(custom_metadata)
     try:
         if request_shm is not None:
-            batch, _, release_shm = resolve_shm_batch(batch, custom_metadata, request_shm)
+            try:
+                batch, _, release_shm = resolve_shm_batch(batch, custom_metadata, request_shm)
+            except ValueError as exc:
+                # Offset / length are the peer's claim: non-numeric, outside the
+                # segment, or pointing at bytes that are not an IPC stream
+                # (pa.ArrowInvalid is a ValueError).  The request stream itself
+                # has been read to its end, so this is a bad request to answer,
+                # not a framing failure to end the connection over.
+                raise RpcError(
+                    "ProtocolError",
+                    f"Invalid shared-memory pointer in request batch: {exc}",
+                    "",
+                ) from exc
         if len(batch.schema) > 0 and batch.num_rows != 1:
             raise RpcError(
                 "ProtocolError",
@@ -541,7 +553,10 @@ def _read_request(
                 ) from exc
     finally:
         if release_shm is not None:
-            release_shm()
+            # The offset is the peer's claim: one the allocator does not know
+            # (stale, repeated, never allocated) must not take the connection down.
+            with contextlib.suppress(ValueError):
+                release_shm()
         if owned_shm is not None:
             with contextlib.suppress(BufferError):
                 owned_shm.close()
